@@ -111,3 +111,16 @@ pub fn any_in(lo: u32, hi: u32) -> u32 {
     assume(lo <= c && c <= hi);
     c
 }
+
+/// make a small symbolic value concrete on each path (forks over 0..n)
+pub fn pin(x: u32, n: u32) -> u32 {
+    let mut k = 0;
+    while k < n {
+        if x == k {
+            return k;
+        }
+        k += 1;
+    }
+    assume(false);
+    0
+}
